@@ -155,6 +155,7 @@ func runC05(r *mc.Run) {
 		pep := c.Choose("pck.endpoint", len(endpoints))
 		rep := c.Choose("root.endpoint", len(endpoints))
 		dp := c.Choose("root.dps", len(dps))
+		ph := c.Choose("pck.header", 5)
 		opt := c.Choose("options", 3)
 		id := "crl/" + c.ID()
 		if !r.Want(id) {
@@ -186,7 +187,18 @@ func runC05(r *mc.Run) {
 		g := w.Getter.Clone()
 		g.Responses[world.URLQeIdentity] = world.Response{Header: map[string][]string{world.HdrQeIdentity: {world.IssuerChainHeader(tcb2, pki.Root)}},
 			Body: world.SignedBody("enclaveIdentity", w.QeRaw, tcb2Key)}
-		g.Responses[pckCrlURL] = serve(endpoints[pep], pckCrl, rootCrl, fPck, w.PckHdr)
+		pckHdr := w.PckHdr
+		switch ph {
+		case 1: // a self-consistent look-alike issuer chain (same names) accompanying the CRL
+			pckHdr = map[string][]string{world.HdrPckCrl: {world.IssuerChainHeader(F.Inter, F.Root)}}
+		case 2: // look-alike CA under the genuine root
+			pckHdr = map[string][]string{world.HdrPckCrl: {world.IssuerChainHeader(F.Inter, pki.Root)}}
+		case 3: // the issuer chain of whoever signed this CRL
+			pckHdr = map[string][]string{world.HdrPckCrl: {world.IssuerChainHeader(pckSigners[psg].issuer, pki.Root)}}
+		case 4: // the root CA's own chain
+			pckHdr = map[string][]string{world.HdrPckCrl: {world.IssuerChainHeader(pki.Root, pki.Root)}}
+		}
+		g.Responses[pckCrlURL] = serve(endpoints[pep], pckCrl, rootCrl, fPck, pckHdr)
 		rootResp := serve(endpoints[rep], rootCrl, pckCrl, fRoot, nil)
 		bad := world.Response{Err: errors.New("404")}
 		dpBenign := true
